@@ -215,6 +215,14 @@ theorem every_added_node_is_found {s s'' : Snap} {l : List (Node × AppId)} (hok
     (∀ m x, Snap.lookup s m = some x → Snap.lookup s'' m = some x) :=
   ⟨Snap.adds_lookup hok h, (Snap.adds_keep hok h).2⟩
 
+/-- the hypothesis `AddOK` of the theorems about `add` is what the `addnew` query evaluates on the dump before every modelled insertion:
+`ufOK` and "no class id at or beyond the table length" (`Driver/SnapDrv.lean: cmpAdd`) -/
+theorem addOK_of_checks {s : Snap} (hok : Snap.ufOK s = true)
+    (hids : (s.classes.any fun c => decide (c.id ≥ s.uf.length)) = false) : Snap.AddOK s := by
+  refine ⟨(Snap.ufOK_sound hok).1, fun c hc => ?_⟩
+  have := List.any_eq_false.mp hids c hc
+  simpa using this
+
 /-- non-vacuity: on the empty e-graph the node `f2($8, $12)` (variant 7, two slot fields) is a miss; with the fresh slots
 `101, 105` handed in, the model allocates class 0 -/
 example : ((Snap.addNew { uf := [], classes := [] } { v := 7, fields := [.slot 8, .slot 12] } [(101, 8), (105, 12)]
